@@ -52,3 +52,39 @@ func Linearizable(init func() any, step func(state, in, out any) (bool, any), eq
 	}
 	return "unknown"
 }
+
+// LinearizableND is Linearizable for a model whose step function may return several
+// possible next states (e.g. an operation whose outcome is unknown).
+func LinearizableND(init []any, step func(state, in, out any) []any, equal func(a, b any) bool, ops []LinOp, budget time.Duration) string {
+	nm := porcupine.NondeterministicModel{
+		Init:  func() []interface{} { return init },
+		Step:  step,
+		Equal: equal,
+	}
+	model := nm.ToModel()
+	var max int64
+	for _, o := range ops {
+		if o.Return > max {
+			max = o.Return
+		}
+		if o.Call > max {
+			max = o.Call
+		}
+	}
+	pops := make([]porcupine.Operation, 0, len(ops))
+	for _, o := range ops {
+		ret := o.Return
+		if ret == 0 {
+			max++
+			ret = max + 1000000
+		}
+		pops = append(pops, porcupine.Operation{ClientId: o.Client, Input: o.In, Output: o.Out, Call: o.Call, Return: ret})
+	}
+	switch porcupine.CheckOperationsTimeout(model, pops, budget) {
+	case porcupine.Ok:
+		return "ok"
+	case porcupine.Illegal:
+		return "illegal"
+	}
+	return "unknown"
+}
